@@ -586,6 +586,20 @@ class CE:
             env[tg.id] = v
         elif isinstance(tg, (ast.Tuple, ast.List)):
             vals = list(self.iterate(v))
+            stars = [i for i, s_ in enumerate(tg.elts) if isinstance(s_, ast.Starred)]
+            if len(stars) == 1:
+                k = stars[0]
+                after = len(tg.elts) - k - 1
+                if len(vals) < len(tg.elts) - 1:
+                    raise CERaise("ValueError", "not enough values to unpack")
+                for s_, x in zip(tg.elts[:k], vals[:k]):
+                    self.assign(s_, x, env, f)
+                self.assign(tg.elts[k].value, list(vals[k:len(vals) - after]), env, f)
+                for s_, x in zip(tg.elts[k + 1:], vals[len(vals) - after:] if after else []):
+                    self.assign(s_, x, env, f)
+                return
+            if stars:
+                raise Unsupported("several starred assignment targets")
             if len(vals) != len(tg.elts):
                 raise CERaise("ValueError", "unpack")
             for s, x in zip(tg.elts, vals):
@@ -943,6 +957,11 @@ class CE:
             r = self.prog.lookup_global(o, attr)
             if r and r[0] in ("func", "class"):
                 return r[1]
+            if r and r[0] in ("var", "module", "external", "builtin"):
+                # a module-level value of another repository module (`from . import _common; _common.TABLE`): evaluated there
+                mf = pyfacts.Func.__new__(pyfacts.Func)
+                mf.module, mf.qualname, mf.name, mf.node, mf.cls = o, "<module>", "<module>", o.tree, None
+                return self.global_name(attr, mf)
             raise Unsupported(f"module attribute {o.name}.{attr}")
         if isinstance(o, ExtName):
             return ExtName(o.dotted + "." + attr)
